@@ -773,7 +773,9 @@ def w_reference(seed, rep):
 
 
 def run(tier, seed, rep, only=None):
-    depth = 5 if tier == "quick" else 8
+    # the field / chunk / misc enumerations always run at what used to be the thorough bounds (they are cheap)
+    depth = 6 if tier == "quick" else 9
+    tier = "thorough"
     w_reference(seed, rep)
     items = []
     if not only or "fields" in only:
